@@ -228,7 +228,17 @@ def run_impl(seqs, tag, timeout=600):
     Returns {seq id: {"lines": [...], "fatal": None | text}}."""
     d = run_dir()
     ov = go_overlay({"internal/index/manager/zz_verif_c11_test.go": os.path.join(ROOT, "harness/c11/zz_verif_c11_test.go")}, "c11_%d" % os.getpid())
-    res, todo, note = {}, list(seqs), ""
+    res, note = {}, ""
+    # a Manager keeps a few descriptors open after Close (index readers): at most 400 sequences per process
+    if len(seqs) > 400:
+        for k in range(0, len(seqs), 400):
+            r, n = run_impl(seqs[k:k + 400], tag, timeout)
+            res.update(r)
+            note = (note + " " + n).strip()
+            if any(v.get("fatal") for v in r.values()):
+                break
+        return res, note
+    todo = list(seqs)
     rounds = 0
     while todo and rounds < 12:
         rounds += 1
